@@ -2,7 +2,7 @@
 # usage: seed_confirm.sh <PROP> <mutant dir> <worktree>
 # Confirms a seeded change: compiles, suite passes, demo fails with it and passes without.
 export GOFLAGS=-mod=mod GOPROXY=off GOTOOLCHAIN=local PATH=/opt/veriftools/go1.26.8/bin:$PATH
-P=$1; M=$2; WT=$3
+P=$1; M=$2; WT=$3; RACE=""; grep -q "// race: yes" $M/demo_test.go && RACE="-race"
 cd $WT || exit 2
 git checkout -q -- . && git clean -fdq
 dir=$(head -1 $M/demo_test.go | grep -o '// dir: .*' | sed 's#// dir: ##')
@@ -13,10 +13,10 @@ git apply $M/patch.diff || { echo "RESULT $P $M apply-failed"; exit 1; }
 go build ./... || { echo "RESULT $P $M build-failed"; git checkout -q -- .; exit 1; }
 if go test -count=1 ./... > /tmp/seed_suite_$$.log 2>&1; then suite=pass; else suite=FAIL; fi
 cp $M/demo_test.go $dir/zz_seed_demo_test.go
-if go test -count=1 ./$dir > /tmp/seed_demo_$$.log 2>&1; then demo_with=pass; else demo_with=fail; fi
+if go test $RACE -count=1 ./$dir > /tmp/seed_demo_$$.log 2>&1; then demo_with=pass; else demo_with=fail; fi
 git checkout -q -- . && git clean -fdq
 cp $M/demo_test.go $dir/zz_seed_demo_test.go
-if go test -count=1 ./$dir > /tmp/seed_demo2_$$.log 2>&1; then demo_without=pass; else demo_without=fail; fi
+if go test $RACE -count=1 ./$dir > /tmp/seed_demo2_$$.log 2>&1; then demo_without=pass; else demo_without=fail; fi
 rm -f $dir/zz_seed_demo_test.go; git checkout -q -- . && git clean -fdq
 echo "RESULT $P $M suite_with_patch=$suite demo_with_patch=$demo_with demo_pristine=$demo_without"
 rm -f /tmp/seed_suite_$$.log /tmp/seed_demo_$$.log /tmp/seed_demo2_$$.log
